@@ -122,3 +122,12 @@ Example ex_C18_fetch :
   | None => False
   end.
 Proof. exact ex_fetch18. Qed.
+
+(** the statements of _rename_chroms / rename_chroms that the rename model rests on are pinned in the source on every run
+    (tools/py2v.py, whole-body pins): chroms/name is rewritten from the renamed index; whenever bins/chrom is categorical its enum is
+    rebuilt from the NEW names in chromosome order over the unchanged codes (no shortcut that keeps an old mapping); the Cooler
+    object is refreshed afterwards *)
+From Cooler Require Import Gen.Translated.
+Theorem C18_source_pins : Gen.rename_chroms_source_pins = true.
+Proof. reflexivity. Qed.
+Print Assumptions C18_source_pins.
